@@ -250,7 +250,31 @@ func plainAuth() string {
 	return base64.StdEncoding.EncodeToString([]byte("\x00juliet\x00secret"))
 }
 
+// reuse, when set, makes negotiatorFor hand out ONE Negotiator value per
+// framing for every run (a reconnect loop): the configuration callback of that
+// value returns the features of the run in progress.
+var reuse *negReuse
+
+type negReuse struct {
+	neg   map[bool]xmpp.Negotiator
+	feats map[bool]func() []xmpp.StreamFeature
+}
+
 func negotiatorFor(ws bool, feats func() []xmpp.StreamFeature) xmpp.Negotiator {
+	if r := reuse; r != nil {
+		r.feats[ws] = feats
+		if r.neg[ws] == nil {
+			cfg := func(*xmpp.Session, *xmpp.StreamConfig) xmpp.StreamConfig {
+				return xmpp.StreamConfig{Features: r.feats[ws]()}
+			}
+			if ws {
+				r.neg[ws] = websocket.Negotiator(cfg)
+			} else {
+				r.neg[ws] = xmpp.NewNegotiator(cfg)
+			}
+		}
+		return r.neg[ws]
+	}
 	cfg := func(*xmpp.Session, *xmpp.StreamConfig) xmpp.StreamConfig {
 		return xmpp.StreamConfig{Features: feats()}
 	}
@@ -461,7 +485,7 @@ func transcripts() []transcript {
 // ---------------------------------------------------------------- faults
 
 type fault struct {
-	kind string // none cut readerr writeerr writelate cancel block
+	kind string // none cut readerr readtimeout writeerr writetimeout writelate cancel precancel block
 	n    int
 }
 
@@ -484,6 +508,15 @@ type result struct {
 
 const watchdog = 10 * time.Second
 
+// netTimeout is a transport failure of the timeout kind (net.Error with
+// Timeout() true) that has nothing to do with the call's context: a deadline
+// the owner of the connection set, ETIMEDOUT, a proxy or TLS layer timing out.
+type netTimeout struct{}
+
+func (netTimeout) Error() string   { return "verif: injected i/o timeout" }
+func (netTimeout) Timeout() bool   { return true }
+func (netTimeout) Temporary() bool { return true }
+
 func runWith(tr transcript, f fault, plainRW bool) result {
 	var res result
 	st := &steps{failAt: -1}
@@ -492,6 +525,9 @@ func runWith(tr transcript, f fault, plainRW bool) result {
 	}
 	ctx, cancel := context.WithCancel(context.Background())
 	defer cancel()
+	if f.kind == "precancel" {
+		cancel() // the context has ended before the call is made
+	}
 	ops := 0
 	var peer *wire.Reactive
 	peer = wire.NewReactive(func(p *wire.Reactive, fresh []byte) []byte {
@@ -550,6 +586,9 @@ func runWith(tr transcript, f fault, plainRW bool) result {
 		if f.kind == "readerr" && n == f.n {
 			return wire.ErrInjected
 		}
+		if f.kind == "readtimeout" && n == f.n {
+			return netTimeout{}
+		}
 		return nil
 	}
 	peer.Conn.BeforeWrite = func(n int, p []byte) error {
@@ -559,6 +598,9 @@ func runWith(tr transcript, f fault, plainRW bool) result {
 		}
 		if f.kind == "writeerr" && n == f.n {
 			return wire.ErrInjected
+		}
+		if f.kind == "writetimeout" && n == f.n {
+			return netTimeout{}
 		}
 		return nil
 	}
@@ -625,11 +667,11 @@ func judge(tr transcript, f fault, base, r result) string {
 		if f.n >= base.fed {
 			return ""
 		}
-	case "readerr":
+	case "readerr", "readtimeout":
 		if f.n >= base.reads {
 			return ""
 		}
-	case "writeerr", "writelate":
+	case "writeerr", "writelate", "writetimeout":
 		if f.n >= base.writes {
 			return ""
 		}
@@ -700,6 +742,14 @@ func TestC04Sweep(t *testing.T) {
 			ev.Case(n > 0, fmt.Sprintf("%s writeerr@%d", tr.name, n), "writeerr")
 			checkFault(t, tr, fault{"writeerr", n}, true, base)
 		}
+		for n := 0; n < base.reads; n++ {
+			ev.Case(true, fmt.Sprintf("%s readtimeout@%d", tr.name, n), "read-fails-with-timeout-error")
+			checkFault(t, tr, fault{"readtimeout", n}, n%3 == 2, base)
+		}
+		for n := 0; n < base.writes; n++ {
+			ev.Case(true, fmt.Sprintf("%s writetimeout@%d", tr.name, n), "write-fails-with-timeout-error")
+			checkFault(t, tr, fault{"writetimeout", n}, n%3 == 2, base)
+		}
 		for n := 0; n < base.writes; n++ {
 			ev.Case(true, fmt.Sprintf("%s writelate@%d", tr.name, n), "write-delivered-but-reported-failed")
 			checkFault(t, tr, fault{"writelate", n}, n%2 == 0, base)
@@ -708,11 +758,66 @@ func TestC04Sweep(t *testing.T) {
 			ev.Case(n > 1, fmt.Sprintf("%s cancel@%d", tr.name, n), "cancel-before-op")
 			checkFault(t, tr, fault{"cancel", n}, false, base)
 		}
+		for _, plain := range []bool{true, false} {
+			ev.Case(true, fmt.Sprintf("%s precancel plain=%v", tr.name, plain), "precancel")
+			r := runWith(tr, fault{kind: "precancel"}, plain)
+			if msg := judgeMust(r); msg != "" {
+				ev.Failf(t, "%s\nthe context had ended before the call\n%s", describe(tr, fault{kind: "precancel"}, plain, base, r), msg)
+			}
+		}
 		for n := 0; n < len(base.bounds); n++ {
 			ev.Case(n > 0, fmt.Sprintf("%s block@%d", tr.name, n), "cancel-while-read-blocked")
 			checkFault(t, tr, fault{"block", n}, false, base)
 		}
 	}
+}
+
+// TestC04ReusedNegotiator: one Negotiator value serves several sessions one
+// after the other.  What an earlier session was given (its context, its first
+// list bookkeeping) is not what a later one runs with: after a fault-free
+// session, the next one is started with a context that has already ended (on
+// both kinds of transport) or that ends before one of its transport operations.
+func TestC04ReusedNegotiator(t *testing.T) {
+	ev.Begin(t)
+	defer func() { reuse = nil }()
+	for _, tr := range []transcript{fullInitiator(false, false, false, false), fullReceiver(false, false, false), fullInitiator(true, false, false, false), fullReceiver(true, false, false), plainInitiator(false)} {
+		reuse = nil
+		base := baseline(t, tr)
+		for _, plain := range []bool{true, false} {
+			reuse = &negReuse{neg: map[bool]xmpp.Negotiator{}, feats: map[bool]func() []xmpp.StreamFeature{}}
+			first := runWith(tr, fault{kind: "none"}, false)
+			if first.err != nil || !ready(first) {
+				t.Fatalf("harness: fault-free first session of %q with a reusable negotiator failed: %v", tr.name, first.err)
+			}
+			ev.Case(true, fmt.Sprintf("%s reused-negotiator precancel plain=%v", tr.name, plain), "negotiator-reused", "precancel")
+			r := runWith(tr, fault{kind: "precancel"}, plain)
+			msg := judgeMust(r)
+			if msg != "" {
+				ev.Failf(t, "%s\nsecond session made with the same Negotiator value, its context had ended before the call\n%s", describe(tr, fault{kind: "precancel"}, plain, base, r), msg)
+			}
+			if !plain {
+				for n := 0; n < base.ops; n += 1 + base.ops/6 {
+					ev.Case(true, fmt.Sprintf("%s reused-negotiator cancel@%d", tr.name, n), "negotiator-reused", "cancel-before-op")
+					checkFault(t, tr, fault{"cancel", n}, false, base)
+				}
+			}
+		}
+	}
+}
+
+// judgeMust: the run must have ended with an error and without the ready bit.
+func judgeMust(r result) string {
+	switch {
+	case r.panicked != "":
+		return r.panicked
+	case !r.returned:
+		return fmt.Sprintf("the call had not returned after %v; goroutines:\n%s", watchdog, r.dump)
+	case r.err == nil:
+		return fmt.Sprintf("the constructor returned nil; state %v", r.s.State())
+	case ready(r):
+		return fmt.Sprintf("error %v but the session is marked ready (state %v)", r.err, r.s.State())
+	}
+	return ""
 }
 
 // TestC04FailingStep: a handshake containing a failing voluntary feature must
@@ -744,12 +849,12 @@ func TestC04Random(t *testing.T) {
 	ev.Check(t, 6000, 30000, func(rt *rapid.T) {
 		i := rapid.IntRange(0, len(trs)-1).Draw(rt, "transcript")
 		tr, base := trs[i], bases[i]
-		kind := rapid.SampledFrom([]string{"cut", "cut", "readerr", "writeerr", "writelate", "cancel", "cancel"}).Draw(rt, "kind")
+		kind := rapid.SampledFrom([]string{"cut", "cut", "readerr", "readtimeout", "writeerr", "writetimeout", "writelate", "cancel", "cancel"}).Draw(rt, "kind")
 		max := base.fed
 		switch kind {
-		case "readerr":
+		case "readerr", "readtimeout":
 			max = base.reads
-		case "writeerr", "writelate":
+		case "writeerr", "writelate", "writetimeout":
 			max = base.writes
 		case "cancel":
 			max = base.ops
